@@ -10,7 +10,7 @@ the path with assume(false).  So these jobs prove the shortcut logic, the decisi
 and that pixman_op is entered legally; what pixman_op computes is covered only by the bounded op*/leaf*
 jobs.  Canonical form (C06) is a conjunct of every postcondition here.
 """
-from vdriver import Job
+from vdriver import Job, ext_jobs, ext_meta
 
 LEAK = ["--memory-leak-check"]
 OPS = [(0, "intersect"), (1, "union"), (2, "subtract")]
@@ -242,6 +242,12 @@ def conv_jobs(tier):
     return js
 
 
+# extension modules merged into this property's job list (vdriver.ext_jobs / ext_meta)
+EXT = [
+    ("C05_opv", None),
+]
+
+
 def jobs(tier):
     js = []
     for bits in (32, 16):
@@ -253,7 +259,7 @@ def jobs(tier):
         js += initrects_jobs(bits, tier)
         js += band_jobs(bits, tier)
     js += conv_jobs(tier)
-    return js
+    return js + ext_jobs(tier, EXT)
 
 
 META = {
@@ -281,3 +287,4 @@ META = {
         "translate, contains_*, init_from_image: C07",
     ],
 }
+META = ext_meta(META, EXT)
